@@ -29,7 +29,7 @@ MANIFEST = dict(
          "and keeps it unaliased (the O(n+k) clause), a shared list is copied exactly once and is unaliased afterwards, drop_lhs makes "
          "the operator's argument unique. The machine is tied to /repo on every run by comparing its heap with the implementation's "
          "real Rc graph (addresses, strong counts) after every statement of generated histories; the O(n+k) clause is measured "
-         "directly with a counting global allocator on 76 workloads (dictionary-merging op-assigns with growing values, loops whose condition is the mutated collection, every payload kind under op-assign at top level and through list slot / dict key / struct field, nested pop/remove/consume, op-assign with a shared right operand) at 6 size points, unaliased and once-aliased.",
+         "directly with a counting global allocator on 85 workloads (mutations guarded by a test of the collection itself - if / and / or / for-guard, defect condition-value-kept-alive fixed in /repo e624b10 -, dictionary-merging op-assigns with growing values, loops whose condition is the mutated collection, every payload kind under op-assign at top level and through list slot / dict key / struct field, nested pop/remove/consume, op-assign with a shared right operand) at 6 size points, unaliased and once-aliased.",
     note="The unaliased/copy-once/drop_lhs theorems are proved for the FLAT fragment only (list of scalars, paths of depth <= 1); nested "
          "rows, dicts, struct fields and pop/remove/builtins at depth are covered by the graph comparison and the allocation "
          "measurement, not by theorems (notes/C02.md). Trusted: Coq kernel; hand-written machine; extraction + OCaml runner; Rust "
@@ -291,6 +291,17 @@ WORKLOADS = [
     ("while (x) index-assign", "list", lambda n: [f"x := {lit_list(n)}", "j := 0"], lambda n, k: f"while (x) (x[j % {n}] = j; j += 1; if (j >= {k}) break)"),
     ("while (x) dict worklist", "dict", lambda n: [f"x := {{}}", f"for (i <- 0 til {n}) (x |.= i)", "j := 0"], lambda n, k: f"while (x) (x |.= ({n} + j); x -.= ({n} + j); j += 1; if (j >= {k}) break)"),
     ("while (x[0]) nested pop", "list", lambda n: [f"x := [{lit_list(n)}, 0]", "j := 0"], lambda n, k: f"while (x[0]) (x[0] append= j; pop x[0]; j += 1; if (j >= {k}) break)"),
+    # mutation statements guarded by a test of the collection itself: the condition's value (a second handle to the collection)
+    # must be released before the branch / right operand / loop body runs (defect condition-value-kept-alive, fixed in /repo)
+    ("if (x) append=", "list", lambda n: [f"x := {lit_list(n)}"], lambda n, k: f"for (i <- 0 til {k}) (if (x) (x append= i))"),
+    ("if (x) append/pop", "list", lambda n: [f"x := {lit_list(n)}"], lambda n, k: f"for (i <- 0 til {k}) (if (x) (x append= i; pop x))"),
+    ("if (x) index-assign else", "list", lambda n: [f"x := {lit_list(n)}"], lambda n, k: f"for (i <- 0 til {k}) (if (not x) null else (x[i % {n}] = i))"),
+    ("if (x) dict |.=", "dict", lambda n: [f"x := {{}}", f"for (i <- 0 til {n}) (x |.= i)"], lambda n, k: f"for (i <- 0 til {k}) (if (x) (x |.= ({n} + i)))"),
+    ("x and append=", "list", lambda n: [f"x := {lit_list(n)}"], lambda n, k: f"for (i <- 0 til {k}) (x and (x append= i))"),
+    ("empty or append=", "list", lambda n: [f"x := {lit_list(n)}", "e := [] ++ []"], lambda n, k: f"for (i <- 0 til {k}) (e or (x append= i))"),
+    ("x[0] and nested append=", "list", lambda n: [f"x := [{lit_list(n)}, 0]"], lambda n, k: f"for (i <- 0 til {k}) (x[0] and (x[0] append= i))"),
+    ("for guard append=", "list", lambda n: [f"x := {lit_list(n)}"], lambda n, k: f"for (i <- 1 to {k}; if x) (x append= i)"),
+    ("for guard vector append=", "vector", lambda n: [f"x := vector({lit_list(n)})"], lambda n, k: f"for (i <- 1 to {k}; if x) (x append= i)"),
     ("string index-assign", "str", lambda n: [f"x := \"a\" $* {n}"], lambda n, k: f"for (i <- 0 til {k}) (x[i % {n}] = \"b\")"),
 ]
 
